@@ -12,8 +12,8 @@ os.makedirs(dst, exist_ok=True)
 shutil.copy(f"{wt}/patch_{ID}.diff", f"{dst}/patch.diff")
 shutil.copy(f"{wt}/demo_{ID}.py", f"{dst}/demo.py")
 conf = ""
-for f in ("A", "B", "C", "D", "E", "F"):
-    p = f"/tmp/confirm_{f}.log"
+import glob
+for p in sorted(glob.glob("/tmp/confirm_?.log")):
     if os.path.exists(p):
         for line in open(p):
             if line.startswith(tag + " ") or (tag == "wt_" + ID and line.startswith(ID + " ")):
